@@ -967,10 +967,24 @@ func maybeTrim(r *rand.Rand, s string, p int, left, right bool) string {
 // DomString while single conditions are violated often.
 func genTupleVals(r *rand.Rand) *ketoapi.RelationTuple {
 	aw := func(avoid string) string {
+		s := ""
 		if r.Intn(100) < 62 {
-			return genStr(r, avoid)
+			s = genStr(r, avoid)
+		} else {
+			s = genStr(r, "")
 		}
-		return genStr(r, "")
+		if r.Intn(14) == 0 {
+			// two slashes in a row (URLs, paths): a comment marker only at the start of a row
+			k := 0
+			if len(s) > 0 {
+				k = r.Intn(len(s) + 1)
+				for k < len(s) && !utf8.RuneStart(s[k]) {
+					k++
+				}
+			}
+			s = s[:k] + "//" + s[k:]
+		}
+		return s
 	}
 	t := &ketoapi.RelationTuple{Namespace: aw(":"), Object: aw("#"), Relation: aw("@")}
 	id := maybeTrim(r, aw(":"), 70, true, true)
